@@ -448,6 +448,17 @@ def _nontrivial(j):
     return False
 
 
+def _attribute(key, seen):
+    """A disagreement on a list of several operations is reported under the key of one of its operations when that
+    operation already disagrees on its own (one defect, one key)."""
+    kind, _, rest = key.partition(":")
+    if kind in ("wrong-result", "missing-error") and ";" in rest:
+        for part in rest.split(";"):
+            if kind + ":" + part in seen:
+                return kind + ":" + part
+    return key
+
+
 def _replay_obj(c):
     return {k: c[k] for k in ("ops", "sigs", "faults", "tables", "order", "expected", "valid", "bad", "flavour")}
 
@@ -530,7 +541,7 @@ def _rand_table(rng, with_time):
             elif c == "duration":
                 r[c] = rng.choice(["1", "2", "3", NA])
             else:
-                r[c] = rng.choice(["x", "x", "y", "1", NA])
+                r[c] = rng.choice(["x", "x", "y", "1", "xy", NA])
         if rows and rng.random() < 0.25:
             r = dict(rows[-1])                # duplicate rows
         rows.append(r)
@@ -664,7 +675,7 @@ def b_report(ctx, recs, r):
                 key = clause + ":" + sg
             rp = {"mode": "recorded", "ops": conc["ops"], "tables": conc["tables"], "order": conc["order"],
                   "observed": rec["obs"], "clause": clause, "step": step, "changed": side["changed"]}
-            ctx.violation(key, "recorded run rejected by Remodel.tla (clause %s, step %d): ops=%s tables=%r order=%s observed=%s %s" % (
+            ctx.violation(_attribute(key, ctx._seen_v), "recorded run rejected by Remodel.tla (clause %s, step %d): ops=%s tables=%r order=%s observed=%s %s" % (
                 clause, step, json.dumps(conc["ops"]), conc["tables"], conc["order"], json.dumps(obs)[:400],
                 ("changed: " + side["changed"]) if side["changed"] else ""), rp)
     ctx.note("recorded_runs_judged_by_tlc", len(recs))
@@ -800,7 +811,7 @@ def run(ctx):
                 invalid += 1
             for level, key, text in r["F"]:
                 if level == "violation":
-                    ctx.violation(key, text, dict(_replay_obj(c), mode="case"))
+                    ctx.violation(_attribute(key, ctx._seen_v), text, dict(_replay_obj(c), mode="case"))
                 else:
                     drift += 1
                     ctx.bump("spec_drift")
